@@ -24,6 +24,9 @@ def FragT : Stmt → Bool
   | .set lv v => FragS (.set lv v) && FragE0 v
   | .call f as => FragS (.call f as)
   | .exit => true
+  | .put m v lv => FragS (.put m v lv)
+  | .delete t => FragS (.delete t)
+  | .hilite t => FragS (.hilite t)
   | _ => false
 def FragTs : List Stmt → Bool
   | [] => true
